@@ -17,6 +17,11 @@ pub fn holecopy_events() -> usize {
     crate::de_bruijn::verif_hooks::OPEN_UNRESOLVED.with(|c| c.get())
 }
 
+// hook H4: `signed_shift` by a non-zero amount left an unresolved unifier below the cutoff untouched
+pub fn holedepth_events() -> usize {
+    crate::de_bruijn::verif_hooks::SHIFT_BELOW_CUTOFF.with(|c| c.get())
+}
+
 pub enum Stage<'a> {
     TokErr(usize),
     ParseErr(usize),
